@@ -121,6 +121,14 @@ func wcObjects(dir string) int {
 func noSyncBolt() *bbolt.Options {
 	o := *bbolt.DefaultOptions
 	o.NoSync = true
+	// File-lock timeout: without one bbolt.Open retries flock forever (50 ms
+	// sleeps) when a handle of the same file leaked, which would hang the case
+	// instead of failing SetMode. Any value <= 50 ms makes the first contended
+	// attempt return ErrTimeout without sleeping (no dependence on fake time,
+	// which cannot advance while e.g. the GC goroutine waits for the shard mutex
+	// held by SetMode). Inside one process the lock is never contended unless a
+	// handle leaked, so the value cannot cause a false alarm.
+	o.Timeout = time.Millisecond
 	return &o
 }
 
